@@ -10,7 +10,7 @@ examination.
 
 from collections import defaultdict
 from string import Formatter
-from typing import Any, Dict, Optional
+from typing import Any, Callable, Dict, Optional
 
 from ._interfaces import LogEvent
 
@@ -72,6 +72,9 @@ def flattenEvent(event: LogEvent) -> None:
     if event.get("log_format", None) is None:
         return
 
+    # _format imports this module.
+    from ._format import CallMapping, PotentialCallWrapper
+
     if "log_flattened" in event:
         fields = event["log_flattened"]
     else:
@@ -85,7 +88,7 @@ def flattenEvent(event: LogEvent) -> None:
         if fieldName is None:
             continue
 
-        if conversion != "r":
+        if conversion not in ("r", "a"):
             conversion = "s"
 
         flattenedKey = keyFlattener.flatKey(fieldName, formatSpec, conversion)
@@ -95,22 +98,21 @@ def flattenEvent(event: LogEvent) -> None:
             # We've already seen and handled this key
             continue
 
-        if fieldName.endswith("()"):
-            fieldName = fieldName[:-2]
-            callit = True
-        else:
-            callit = False
-
-        field = aFormatter.get_field(fieldName, (), event)
+        # Look the field up exactly as formatWithCall does, so that call
+        # parentheses are honored wherever they appear in the field name
+        # (for example "{a().b}" or "{obj.method().attribute}").
+        field = aFormatter.get_field(fieldName, (), CallMapping(event))
         fieldValue = field[0]
+        if isinstance(fieldValue, PotentialCallWrapper):
+            fieldValue = fieldValue._wrapped
 
+        conversionFunction: Callable[[object], str]
         if conversion == "r":
             conversionFunction = repr
-        else:  # Above: if conversion is not "r", it's "s"
+        elif conversion == "a":
+            conversionFunction = ascii
+        else:  # Above: if conversion is not "r" or "a", it's "s"
             conversionFunction = str
-
-        if callit:
-            fieldValue = fieldValue()
 
         flattenedValue = conversionFunction(fieldValue)
         fields[flattenedKey] = flattenedValue
